@@ -235,6 +235,50 @@ Definition C12_ovl_behaviour_statement : Prop := ovl_behaviour_full.
 Theorem C12_ovl_behaviour_full : C12_ovl_behaviour_statement.
 Proof. exact ovl_behaviour_holds. Qed.
 
+(* ---- twin entry points: RELEASE / RELEASEDIR / CREATE / SETATTR consult the same switches ---- *)
+Theorem C12_pt_twins_agree : forall c t,
+  let b := pt_behaviour c t in let w := pt_twins t in
+  (w_release w = if b_open_enosys b then UEnosys else UOk) /\
+  (w_releasedir w = if b_opendir_enosys b then UEnosys else UOk) /\
+  w_create_handle w = negb (b_open_enosys b) /\
+  w_create_wb w = tri (negb (b_open_enosys b)) (b_writeback_flags b) /\
+  w_create_killpriv w = Some (b_killpriv b) /\ w_setattr_killpriv w = Some (b_killpriv b).
+Proof. exact pt_twins_agree. Qed.
+
+Theorem C12_ovl_twins_agree : forall c t,
+  let b := ovl_behaviour c t in let w := ovl_twins t in
+  (w_release w = if b_open_enosys b then UEnosys else UOk) /\
+  (w_releasedir w = if b_opendir_enosys b then UEnosys else UOk) /\
+  w_create_handle w = negb (b_open_enosys b) /\
+  w_create_wb w = tri (negb (b_open_enosys b)) (b_writeback_flags b) /\
+  w_create_killpriv w = None /\ w_setattr_killpriv w = Some (b_killpriv b).
+Proof. exact ovl_twins_agree. Qed.
+
+Theorem C12_pt_twins_negotiated : forall c t capable, twins_within (pt_twins (snd (pt_init c t capable))) capable.
+Proof. exact pt_twins_negotiated. Qed.
+
+Theorem C12_ovl_twins_negotiated : forall c t capable, twins_within (ovl_twins (snd (ovl_init c t capable))) capable.
+Proof. exact ovl_twins_negotiated. Qed.
+
+(* through a Vfs (backend initialised by Vfs::init or, when mounted later, by Vfs::mount with the same word) *)
+Theorem C12_vfs_twins_negotiated : forall s s' t c opts,
+  twins_within (vfs_twins s' (snd (pt_init c t (vfs_backend_word s opts)))) opts.
+Proof. exact vfs_twins_negotiated. Qed.
+
+(* per-file DAX under a dax_file_size threshold *)
+Theorem C12_pt_dax_threshold : forall d c t capable,
+  behaviour_within (pt_behaviour_d d c (snd (pt_init c t capable))) capable.
+Proof. exact pt_behaviour_d_negotiated. Qed.
+
+(* feature async-io: Vfs::async_open is the same test on the same state as Vfs::open *)
+Theorem C12_vfs_async_open_twin : forall s, vfs_async_open_enosys s = vfs_open_enosys s.
+Proof. exact vfs_async_open_twin. Qed.
+
+Theorem C12_vfs_async_no_open_negotiated : forall s opts bs r s',
+  v_initialized s = false -> vfs_init s opts bs = (r, s') ->
+  vfs_async_open_enosys s' = true -> has opts F_ZERO_MESSAGE_OPEN = true.
+Proof. exact vfs_async_no_open_negotiated. Qed.
+
 (* ================================================================== non-vacuity witnesses *)
 Definition ex_cfg : config := {| cfg_minor := 33; cfg_remap := RemapOk 0 0; cfg_vu_req := false; cfg_fsopt_mask := fsoptions_all |}.
 Definition ex_hdr : hdr := {| h_len := 104; h_opcode := 26; h_unique := 1; h_nodeid := 0; h_uid := 0; h_gid := 0; h_pid := 0 |}.
@@ -325,3 +369,11 @@ Print Assumptions C12_toggles_history_full.
 Print Assumptions C12_toggles_history_last.
 Print Assumptions C12_pt_behaviour_full.
 Print Assumptions C12_ovl_behaviour_full.
+Print Assumptions C12_pt_twins_agree.
+Print Assumptions C12_ovl_twins_agree.
+Print Assumptions C12_pt_twins_negotiated.
+Print Assumptions C12_ovl_twins_negotiated.
+Print Assumptions C12_vfs_twins_negotiated.
+Print Assumptions C12_pt_dax_threshold.
+Print Assumptions C12_vfs_async_open_twin.
+Print Assumptions C12_vfs_async_no_open_negotiated.
